@@ -122,8 +122,13 @@ def extract() -> dict:
     assert os.path.abspath(h.__file__).startswith(os.path.abspath(src)), h.__file__
     seq = GenSkeleton(h.SequenceGenerator.next_sequence)
     sess = GenSkeleton(h.SessionGenerator.next_id)
+    if HERE not in sys.path:
+        sys.path.insert(0, HERE)
+    import wpath
+    wp = wpath.observe_prog()
     out = {
-        "seq": seq.instrs, "sess": sess.instrs, "notes": seq.notes + sess.notes,
+        "wp": wp,
+        "seq": seq.instrs, "sess": sess.instrs, "notes": seq.notes + sess.notes + wp.get("notes", []),
         "seqMin": h.SequenceGenerator.MIN_SEQUENCE, "seqMax": h.SequenceGenerator.MAX_SEQUENCE,
         "sessMin": h.SessionGenerator.MIN_SEQUENCE, "sessMax": h.SessionGenerator.MAX_SEQUENCE,
     }
@@ -132,10 +137,16 @@ def extract() -> dict:
 
 def emit(x: dict, write_if_changed) -> bool:
     s = "-- GENERATED by harness/extract_threads.py from /repo's working tree. Do not edit.\n"
-    s += "import DV.Model.Generators\nimport DV.Generated.Constants\nnamespace DV.Gen\nopen DV.Gens\n\n"
+    s += "import DV.Model.Generators\nimport DV.Model.WritePath\nimport DV.Generated.Constants\nnamespace DV.Gen\nopen DV.Gens\n\n"
     s += "def seqProgram : List Instr := [\n  " + ",\n  ".join(lean_instr(d) for d in x["seq"]) + " ]\n\n"
     s += "def sessProgram : List Instr := [\n  " + ",\n  ".join(lean_instr(d) for d in x["sess"]) + " ]\n\n"
     # (the MIN/MAX constants are in Generated/Constants.lean)
+    wp = x["wp"]
+
+    def atoms(l):
+        return "[" + ", ".join("⟨.%s, %s⟩" % (k, "true" if lk else "false") for k, lk in l) + "]"
+    s += "def writeProg : DV.WP.Prog :=\n  { " + "\n    ".join(
+        f"{name} := {atoms(wp[name])}" for name in ("wOk", "wFail", "lPrefix", "lOk", "lSoft", "lHard")) + " }\n"
     s += "\nend DV.Gen\n"
     return write_if_changed(os.path.join(GEN, "Threads.lean"), s)
 
